@@ -117,6 +117,7 @@ class Run:
         if not (r.completed or kw.get("simulate")) and "TLC-TIMEOUT" not in r.out:
             raise MachineryError(f"schedule generation {name} failed: " + r.out[-1500:])
         cfgs_by_id, sch = models.schedules(r)
+        r.out = r.out[-4000:]          # the schedules are parsed: free the (possibly huge) TLC output
         if limit is not None and len(sch) > limit:
             sch = self.rng.sample(sch, limit)
         for cid, _status, hist in sch:
@@ -137,6 +138,7 @@ class Run:
         timed_out = "TLC-TIMEOUT" in r.out
         cfgs_by_id, seqs, viol = models.solo_sequences(r, limit, self.rng)
         n_all = models.json_lines.last_total
+        r.out = r.out[-4000:]
         if viol:
             self.model_violated.append(f"{name}:" + json.dumps(viol[0][1])[:300])
         elif not r.completed and not timed_out:
@@ -180,23 +182,51 @@ class Run:
             self.next_tid += 1
 
     # ---- judging ----
+    CHUNK = 2500     # executions recorded, validated and absorbed at a time (bounds memory in the thorough tier)
+
     def judge(self) -> None:
-        self.traces += execute(self.jobs)
-        self.jobs = []
-        self.verdicts = tracecheck.validate(self.traces, self.wd)
         self.monitor_hits = 0
         self.clause_count: dict[str, int] = {}
-        for t in self.traces:
-            v = self.verdicts[t["tid"]]
+        self.n_traces = 0
+        self.n_events = 0
+        self.kinds: dict[str, int] = {}
+        self.distinct: set = set()
+        self.samples: list = []
+        self.n_drift = 0
+        pre, self.traces = self.traces, []
+        if pre:
+            self._absorb(pre)
+        jobs, self.jobs = self.jobs, []
+        for i in range(0, len(jobs), self.CHUNK):
+            self._absorb(execute(jobs[i:i + self.CHUNK]))
+
+    def _absorb(self, traces: list[dict]) -> None:
+        import hashlib
+        verdicts = tracecheck.validate(traces, self.wd)
+        for t in traces:
+            v = verdicts[t["tid"]]
+            self.n_traces += 1
+            self.n_events += sum(1 for e in t["ev"] if e.get("side") != "E")
+            self.kinds[t["kind"]] = self.kinds.get(t["kind"], 0) + 1
+            key = json.dumps([t["cfg"].get(k) for k in ("mode", "closure", "immNak", "chk", "segLen")] + [t.get("sched")] +
+                             [[e.get("call"), e.get("arg", {}).get("t")] for e in t["ev"]], sort_keys=True)
+            self.distinct.add(hashlib.md5(key.encode()).digest()[:8])
+            if len(self.samples) < 2 or (len(self.samples) < 3 and self.n_traces % 997 == 0):
+                self.samples.append(dict(tid=t["tid"], kind=t["kind"], sched=t.get("sched"),
+                                         cfg={k: t["cfg"].get(k) for k in ("mode", "closure", "immNak", "chk", "segLen", "file")},
+                                         events=[dict(side=e["side"], call=e["call"], arg=e.get("arg", {}).get("t"),
+                                                      out=[p["t"] for p in e.get("out", [])], exc=e.get("exc"))
+                                                 for e in t["ev"][:40]]))
             if v["status"] != "ok":
-                self.out.drift.append(dict(tid=t["tid"], at=v["at"], clauses=v["clauses"],
-                                           explain=tracecheck.explain_drift(t, v)[:1200]))
+                self.n_drift += 1
+                if len(self.out.drift) < 20:
+                    self.out.drift.append(dict(tid=t["tid"], at=v["at"], clauses=v["clauses"],
+                                               explain=tracecheck.explain_drift(t, v)[:1200]))
             for x in v["viol"]:
                 if x["prop"] != self.prop:
                     continue
                 self.monitor_hits += 1
-                key = x["clause"]
-                self.clause_count[key] = self.clause_count.get(key, 0) + 1
+                self.clause_count[x["clause"]] = self.clause_count.get(x["clause"], 0) + 1
                 rec = dict(x)
                 at = x["at"]
                 if 1 <= at <= len(t["ev"]) and t["ev"][at - 1].get("side") != "E":
@@ -207,28 +237,18 @@ class Run:
 
     def finish(self, level: str = "model_checking", assumptions: list[str] | None = None, extra: dict | None = None,
                keep: bool = False) -> int:
-        ev_count = sum(1 for t in self.traces for e in t["ev"] if e.get("side") != "E")
-        kinds: dict[str, int] = {}
-        for t in self.traces:
-            kinds[t["kind"]] = kinds.get(t["kind"], 0) + 1
-        distinct = len({json.dumps([t["cfg"].get(k) for k in ("mode", "closure", "immNak", "chk", "segLen")] + [t.get("sched")] +
-                                   [[e.get("call"), e.get("arg", {}).get("t")] for e in t["ev"]], sort_keys=True)
-                        for t in self.traces})
-        samples = []
-        for t in self.traces[:1] + self.traces[len(self.traces) // 2:len(self.traces) // 2 + 1]:
-            samples.append(dict(tid=t["tid"], kind=t["kind"], sched=t.get("sched"),
-                                cfg={k: t["cfg"][k] for k in ("mode", "closure", "immNak", "chk", "segLen", "file")},
-                                events=[dict(side=e["side"], call=e["call"], arg=e.get("arg", {}).get("t"),
-                                             out=[p["t"] for p in e.get("out", [])], exc=e.get("exc"))
-                                        for e in t["ev"][:40]]))
+        ev_count, kinds, distinct, samples = self.n_events, self.kinds, len(self.distinct), self.samples
+        if self.n_drift > len(self.out.drift):
+            self.out.notes.append(f"DRIFT total: {self.n_drift} executions (first {len(self.out.drift)} kept)")
+        ntr = self.n_traces
         cov = dict(
             states=max(self.states, 1), transitions=max(self.transitions, 1), exhaustive=self.exhaustive,
-            traces_validated_against_impl=len(self.traces), samples=samples or [dict(note="no executions")],
+            traces_validated_against_impl=ntr, samples=samples or [dict(note="no executions")],
             evaluations=ev_count, distinct_nontrivial=distinct,
             rule="evaluations = public API calls of the real handlers recorded and judged by TLC; distinct = executions that "
                  "differ in configuration, schedule or call/argument-kind sequence",
             model_instances=self.models, executions_by_kind=kinds, schedules=self.sched_stats,
-            conformance=dict(traces=len(self.traces), drift=len(self.out.drift)),
+            conformance=dict(traces=ntr, drift=self.n_drift),
             monitor=dict(hits=self.monitor_hits, by_clause=self.clause_count, known=self.out.known_hits),
             model_result="violated: %s" % self.model_violated if self.model_violated else "no error",
             checker_cmd="tlc (spec/Cfdp.tla instances via spec/MC_Cfdp.tla; spec/CfdpTrace.tla over recorded executions)")
